@@ -1,6 +1,6 @@
 (* Model of string terminals in parglare (property C19):
      - StringRecognizer.__call__                      grammar.py:231-244
-     - the keyword rewrite  \b<text>\b                grammar.py:1063-1089
+     - the keyword rewrite (escaped text, word anchors) grammar.py:1063-1096 (after the fix)
      - the two un-escape passes of string constants   grammar.py:2080-2089, 2101-2105
      - GrammarSymbol name escaping                    grammar.py:34-35, 56
      - inline string -> terminal named by its text    grammar.py:2053-2066, 1680-1695
@@ -55,9 +55,28 @@ Section Keyword.
   (* regex \b at position p: exactly one side is a word character *)
   Definition boundary (w : str) (p : nat) : bool := xorb (word_before w p) (word_at w p).
 
-  (* RegExRecognizer(r"\b<value>\b", ignore_case) for a value that the regex engine reads
-     literally (see [regex_plain]): returns the matched input text m.group() *)
+  Definition first_is (v : str) : bool := match v with c :: _ => is_word c | [] => false end.
+  Definition last_is (v : str) : bool := first_is (rev v).
+
+  (* The recognizer that Grammar._fix_keyword_terminals puts in place of a string
+     recognizer whose text the KEYWORD regex matches completely:
+       RegExRecognizer(before + re.escape(value) + after, name=value, ignore_case)
+     with  before = \b if value[0] is a word character else (?<!\w)
+           after  = \b if value[-1] is a word character else (?!\w).
+     re.escape makes the engine read the text literally (trusted, and checked by the
+     correspondence run).  Returns the matched input text m.group(). *)
   Definition kw_rec (ic : bool) (value w : str) (pos : nat) : option str :=
+    let sl := slice w pos (length value) in
+    let lit := if ic then str_eqb (lower sl) (lower value) else str_eqb sl value in
+    let left := if first_is value then boundary w pos else negb (word_before w pos) in
+    let right := if last_is value then boundary w (pos + length value)
+                 else negb (word_at w (pos + length value)) in
+    if left && lit && right && negb (match sl with [] => true | _ => false end)
+    then Some sl else None.
+
+  (* the recognizer before the repair: \b on both sides whatever the text (kept to state
+     that the repair changes nothing for texts that begin and end with a word character) *)
+  Definition kw_rec_bb (ic : bool) (value w : str) (pos : nat) : option str :=
     let sl := slice w pos (length value) in
     let lit := if ic then str_eqb (lower sl) (lower value) else str_eqb sl value in
     if boundary w pos && lit && boundary w (pos + length value)
@@ -70,15 +89,6 @@ Section Keyword.
     (if ic then str_eqb (lower sl) (lower value) else str_eqb sl value)
     && negb (word_before w pos) && negb (word_at w (pos + length value)).
 End Keyword.
-
-Definition first_is (P : N -> bool) (v : str) : bool := match v with c :: _ => P c | [] => false end.
-Definition last_is (P : N -> bool) (v : str) : bool := first_is P (rev v).
-
-(* characters that a Python regex compiled with re.VERBOSE reads as themselves *)
-Definition regex_plain_c (c : N) : bool :=
-  ascii_word c ||
-  existsb (N.eqb c) [33; 34; 37; 38; 39; 44; 45; 47; 58; 59; 60; 61; 62; 64; 96; 126].
-Definition regex_plain (s : str) : bool := forallb regex_plain_c s.
 
 (* ------------------------------------------------------------------ *)
 (* String constants: un-escaping                                       *)
@@ -375,16 +385,16 @@ Record aterm : Type := mkA {
   at_fqn : str;
   at_prior : N;
   at_rec : frec;
-  at_regex_len : N;          (* len(recognizer._regex) for regex recognizers *)
+  at_name_len : N;           (* len(recognizer.name): a keyword recognizer is named by its text *)
   at_finish : option bool    (* explicit finish / nofinish mark *)
 }.
 
-(* numeric part of the key: prior*1000 + 500 + len(string) + (len(regex) - 4 for keywords) *)
+(* numeric part of the key: prior*1000 + 500 + len(string) + (len(recognizer.name) for keywords) *)
 Definition act_key (t : aterm) : N :=
   at_prior t * 1000 + 500 +
   match at_rec t with
   | FStr v => N.of_nat (length v)
-  | FKw _ => at_regex_len t - 4
+  | FKw _ => at_name_len t
   | FRegex _ => 0
   end.
 
@@ -426,8 +436,8 @@ Fixpoint finish_flags_rev (l : list aterm) (below : option N) : list bool :=
   end.
 Definition finish_flags (l : list aterm) : list bool := rev (finish_flags_rev (rev l) None).
 
-(* the same terminal had it stayed a plain string terminal: the keyword regex is
-   \b<text>\b, four characters longer than the text *)
+(* the same terminal had it stayed a plain string terminal; [kw_len_ok]: the keyword
+   recognizer is named by the text (name=match in _fix_keyword_terminals) *)
 Definition as_string (t : aterm) : aterm :=
   match at_rec t with
   | FKw v => mkA (at_fqn t) (at_prior t) (FStr v) 0 (at_finish t)
@@ -435,6 +445,6 @@ Definition as_string (t : aterm) : aterm :=
   end.
 Definition kw_len_ok (t : aterm) : bool :=
   match at_rec t with
-  | FKw v => at_regex_len t =? N.of_nat (length v) + 4
+  | FKw v => at_name_len t =? N.of_nat (length v)
   | _ => true
   end.
